@@ -317,9 +317,11 @@ func (sd *SpecAnalyser) analyseResponseParams() {
 					location := DifferenceLocation{URL: eachURLMethodFrom2.Path, Method: eachURLMethodFrom2.Method, Response: code2, Node: headerRootNode}
 					for op2HeaderName, op2Header := range op2Response.ResponseProps.Headers {
 						if op1Header, ok := op1Headers[op2HeaderName]; ok {
+							// a changed header is reported under its name, like an added or a deleted one
+							headerLocation := location.AddNode(getSchemaDiffNode(op2HeaderName, &op2Header.SimpleSchema))
 							diffs := sd.CompareProps(forHeader(op1Header), forHeader(op2Header))
-							sd.addDiffs(location, diffs)
-							sd.compareItems(location, op1Header.Items, op2Header.Items)
+							sd.addDiffs(headerLocation, diffs)
+							sd.compareItems(headerLocation, op1Header.Items, op2Header.Items)
 						} else {
 							sd.Diffs = sd.Diffs.addDiff(SpecDifference{
 								DifferenceLocation: location.AddNode(getSchemaDiffNode(op2HeaderName, &op2Header.SimpleSchema)),
